@@ -28,12 +28,13 @@ from ref import h5l  # noqa: E402
 PROP = "C02"
 ENGINE = "tb"
 USES_TRANSLATOR = True
-LEAN_TARGETS = ["H5V.Props.C02", "H5V.Props.C02Algo"]
+LEAN_TARGETS = ["H5V.Props.C02", "H5V.Props.C02Algo", "H5V.Props.C02Modes"]
 LEANCHECKER = True
-AUDIT_IMPORTS = ["H5V.Props.C02", "H5V.Props.C02Algo"]
+AUDIT_IMPORTS = ["H5V.Props.C02", "H5V.Props.C02Algo", "H5V.Props.C02Modes"]
 _TABLE_THEOREMS = [
     "C02_table_special", "C02_table_default_scope", "C02_table_list_item_scope", "C02_table_button_scope",
-    "C02_table_table_scope", "C02_table_table_context", "C02_table_table_body_context", "C02_table_table_row_context",
+    "C02_table_table_scope", "C02_table_table_context", "C02_table_table_text_nodes", "C02_table_table_body_context",
+    "C02_table_table_row_context",
     "C02_table_implied_end", "C02_table_implied_end_thorough", "C02_table_implied_except_p", "C02_table_heading",
     "C02_table_foster_target", "C02_table_mathml_text_ip", "C02_table_svg_html_ip", "C02_table_extra_special",
     "C02_table_formatting", "C02_table_body_end_ok_partial", "C02_table_quirks_public_prefixes",
@@ -58,7 +59,19 @@ ALGO_THEOREM_NAMES = [
     "C02_spec_implied_end_tags_tot", "C02_spec_clear_stack_back", "C02_spec_pop_until", "C02_spec_close_p",
     "C02_spec_close_cell", "C02_spec_in_scope_tot", "C02_spec_stop_parsing_pop_all",
     "Ex.C02_witness_foster_previous_template_spec", "Ex.C02_witness_foster_previous_template"]
-THEOREMS = ["H5V.Props.C02." + t for t in _TABLE_THEOREMS + SPEC_THEOREM_NAMES + ALGO_THEOREM_NAMES]
+# THE INSERTION MODES (Props/C02Modes.lean): the model of html5ever's tree builder = the independent transcription of
+# 13.2.6.4 / 13.2.6.5 (Spec/TreeModes*.lean), every mode, foreign content, dispatcher, whole documents and fragments
+MODES_THEOREM_NAMES = [
+    "C02_all_modes", "C02_all_modes_chars", "C02_mode_initial", "C02_mode_before_html", "C02_mode_before_head",
+    "C02_mode_in_head", "C02_mode_in_head_noscript", "C02_mode_after_head", "C02_mode_in_body", "C02_mode_text",
+    "C02_mode_in_table", "C02_mode_in_table_text", "C02_mode_in_caption", "C02_mode_in_column_group",
+    "C02_mode_in_table_body", "C02_mode_in_row", "C02_mode_in_cell", "C02_mode_in_template", "C02_mode_after_body",
+    "C02_mode_in_frameset", "C02_mode_after_frameset", "C02_mode_after_after_body", "C02_mode_after_after_frameset",
+    "C02_foreign", "C02_foreign_chars", "C02_doctype_initial", "C02_rules_in_body", "C02_rules_in_head", "C02_dispatcher",
+    "DocAgrees.std", "DocAgrees.unique", "C02_model_eq_spec_modes_completed", "C02_model_eq_spec_modes",
+    "C02_model_eq_spec_modes_fragment_completed", "C02_model_eq_spec_modes_fragment", "respects2_of_B",
+    "respects2_frag_of_B"]
+THEOREMS = ["H5V.Props.C02." + t for t in _TABLE_THEOREMS + SPEC_THEOREM_NAMES + ALGO_THEOREM_NAMES + MODES_THEOREM_NAMES]
 
 TRUSTED = [
     "Lean 4 kernel; axioms ⊆ {propext, Classical.choice, Quot.sound} (audited per run)",
@@ -128,6 +141,7 @@ def table_pairs(S, G):
         ("list_item_scope", t2(G["list_item_scope"]), S["defaultScope"] + S["listItemScopeExtra"]),
         ("button_scope", t2(G["button_scope"]), S["defaultScope"] + S["buttonScopeExtra"]),
         ("table_scope", t2(G["table_scope"]), S["tableScope"]),
+        ("table_text_nodes", t2(G["mod_table_outer"]), h(S["tableTextCurrentNodes"])),
         ("table_body_context", t2(G["table_body_context"]), h(S["tableBodyContext"])),
         ("table_row_context", t2(G["table_row_context"]), h(S["tableRowContext"])),
         ("implied_end", t2(G["cursory_implied_end"]), h(S["impliedEnd"])),
@@ -202,6 +216,11 @@ def texts_for_diff(table, row):
             for p in _PAIR_TEXT:
                 T.append(pre + wrap + "<" + n + ">" + p + "y")
         T += ["<p><%s%s>x</p>y" % (wrap[1:-1] + "><" if wrap else "", n), "<table><%s>x<tr><td>y" % n, "<table><tr><%s>x<td>y" % n]
+    elif table == "table_text_nodes":
+        for pre in ("<table>", "<table><tbody>", "<table><tr>", "<template><tr></tr>", "<template><tbody></tbody>"):
+            for t in (" ", "x", " y "):
+                T += [pre + "<%s>" % n + "</%s>" % n + t + "<b>z", pre + t + "<%s>" % n + t]
+        T += ["<template><tr><b></tr> ", "<template><tr></tr> x"]
     elif table in ("formatting_start", "formatting_end"):
         T += ["<%s>a<p>b</%s>c" % (n, n), "<%s><%s><%s><%s>x<p>y" % (n, n, n, n), "<p><%s>a<div>b</%s>c</div>d" % (n, n),
               "<%s>a<table>b</%s>c</table>d" % (n, n), "<%s>x</p>y" % n]
@@ -700,6 +719,10 @@ def gen_cases(tier, rng):
         texts.append((t, c))
     for t in tb.cdata_edge_texts():
         texts.append((t, None))
+    # around the four defects repaired after the independent-spec proof (F38-F41): DOCTYPE inside table text, characters
+    # under a template current node in table modes, end tags in foreign-context fragments, select-context fragments
+    for t, c in tb.fix_families():
+        texts.append((t, c))
     # fragment parsing of text-only contexts: their own end tag is ordinary text there
     for cx in ("title", "textarea", "style", "xmp", "iframe", "noembed", "noframes", "script", "noscript", "plaintext"):
         for t in ("a</%s><b>c" % cx, "</%s>" % cx, "x<!--</%s>-->y</%s >z" % (cx, cx), "<%s>q</%s>r" % (cx, cx)):
